@@ -123,6 +123,7 @@ func (corSelf *CorDef[T]) YieldRef(out T) T {
 	var more bool
 	// fmt.Println(corSelf, "Wait for", "op")
 	op, more = <-corSelf.opCh
+	verifAt("cor.YieldRef.taken")
 	// fmt.Println(corSelf, "Wait for", "op", "done")
 
 	if more && op != nil && op.cor != nil {
@@ -144,6 +145,7 @@ func (corSelf *CorDef[T]) YieldFrom(target *CorDef[T], in T) T {
 	}
 
 	target.receive(corSelf, in)
+	verifAt("cor.YieldFrom.sent")
 
 	// fmt.Println(corSelf, "Wait for", "result")
 	result, _ = <-corSelf.resultCh
@@ -191,8 +193,10 @@ func (corSelf *CorDef[T]) IsStarted() bool {
 
 func (corSelf *CorDef[T]) close() {
 	corSelf.isClosed.Set(true)
+	verifAt("cor.close.flagged")
 
 	corSelf.closedM.Lock()
+	verifAt("cor.close.locked")
 	if corSelf.resultCh != nil {
 		close(corSelf.resultCh)
 	}
@@ -206,6 +210,7 @@ func (corSelf *CorDef[T]) doCloseSafe(fn func()) {
 	if corSelf.IsDone() {
 		return
 	}
+	verifAt("cor.doCloseSafe.checked")
 	corSelf.closedM.Lock()
 	fn()
 	corSelf.closedM.Unlock()
